@@ -30,7 +30,7 @@ def repair_case_parts(rows, v0, k, s, vt, indel, heap, budget=None, no_call=Fals
 
     def run():
         a = gen.counting(rows, budget if budget is not None else 1 << 60)
-        r = dsw.repair_dna(dna_sequence=gen.typed_str(s), accessor=a, start_index=v0, observed_length=k, vt_check=gen.typed_str(vt),
+        r = gen.api("repair_dna", dna_sequence=gen.typed_str(s), accessor=a, start_index=v0, observed_length=k, vt_check=gen.typed_str(vt),
                            has_indel=indel, heap_size=heap)
         return r
 
